@@ -99,6 +99,11 @@ def run(prop, tier, seed):
                     f"layout {json.dumps(x['entries'])[:300]}" + (f"; variables {json.dumps(x['vars'])[:300]}" if x.get("vars") else ""),
                     {"kind": "program", "hex": x["hex"], "vars": x.get("vars"), "invariants": x["inv"]})
     log(f"[{prop}] LayoutTrace: {res['cnt']}; {len(res['viol'])} failing records reported ({len(mine)} for {prop})")
+    stor = None
+    if prop == "C06":
+        import vmstate
+        stor = vmstate.run(tier, seed)
+        vmstate.report(prop, v, stor)
     cov = {
         "states": res["states"],
         "transitions": res["transitions"],
@@ -110,6 +115,9 @@ def run(prop, tier, seed):
         "rule": "contracts enumerated by IdiomsGen + seeded generators; a program contributes when its analysis succeeds",
         "samples": [res["sample"]],
     }
+    if stor:
+        cov["storage_model"] = vmstate.coverage(stor)
+        cov["states"] += stor["states"]
     return v.finish("model_checking" if prop in ("C04", "C05", "C06") else "exploration" if prop == "C11" else "model_checking", 
                     cov | ({"evaluations": res["info"]["programs"], "distinct_nontrivial": res["cnt"]["ok"]} if prop == "C11" else {}),
                     ["TLC + community modules", "the harness's assembler implements the idiom templates of Idioms.tla",
